@@ -425,13 +425,15 @@ func genW(c *Ctx) {
 				N = c.R.Range(15, 40) // "all cell counts": past any plausible batching width
 			}
 			pick := func() int {
-				switch c.R.Intn(4) {
+				switch c.R.Intn(5) {
 				case 0:
 					return 1
 				case 1:
 					return N
 				case 2:
 					return c.R.Range(1, N)
+				case 3:
+					return N + c.R.Range(1, 3) // MORE sets / blocks than cells (legal: the surplus is never read; row strides are the full width)
 				}
 				for k := N - 1; k >= 1; k-- { // coprime with N
 					if gcd(k, N) == 1 {
@@ -523,6 +525,12 @@ func genW(c *Ctx) {
 			}
 			if nBlocks < N {
 				c.Stats.Count("fewer_blocks_than_cells")
+			}
+			if nSets > N {
+				c.Stats.Count("more_sets_than_cells")
+			}
+			if nBlocks > N {
+				c.Stats.Count("more_blocks_than_cells")
 			}
 			if oc > N || oT > T {
 				c.Stats.Count("oversized_outputs")
